@@ -398,7 +398,7 @@ def run_unit(job):
         out["funcs"][name] = res
     module.debug_db = None
     gen = irgen.Generated(module, list(entries.values()), [])
-    if any(args for _, args in job["funcs"]):
+    if any(args for _, args in job["funcs"]) and not job.get("no_ir2py"):
         try:
             runner = irrun.Ir2Py(gen)
         except Exception as e:  # noqa
